@@ -27,4 +27,6 @@ TwoA2Int(kk, XX) == LET a == TwoA(kk)  DD == Len(a) - 1
                     IN S(0)
 ClosedForm == ks # <<>> => LET m == Len(ks)  c == Pow(4, (m + 1) \div 2) IN
                 TwoA2Int(ks, X) * Pow(4, m + 2) = 4 * c * c * NumA2(ks, X)
+\* (3) the closed form on the twice finer grid agrees with (2) where both are defined: NumA2h(ks, 2X) = 2^(m+1) NumA2(ks, X)
+HalfGrid == ks # <<>> => \A x \in -7..7 : NumA2h(ks, 2 * x) = Pow2(Len(ks) + 1) * NumA2(ks, x)
 ====
